@@ -39,6 +39,14 @@ def solves(r, n, equal_homog_share=0.3):
         out.append({"op": "fteik3d", "slow": 1.0 / v, "dz": d0, "dx": d0, "dy": d0, "zs": src[0], "xs": src[1], "ys": src[2],
                     "nsweep": 3, "grad": 1, "meta": {"shape": sh, "d": d, "medium": kind, "src": src, "cls": "interior",
                                                      "equal": True, "elongated": True}})
+        # the same model with the source near the FAR end of the long axis: rays (traced from the end point towards the
+        # source) then travel towards increasing coordinates in the region beyond the other axes' extents
+        la = int(np.argmax(sh))
+        src2 = tuple((sh[a] * d0 - float(r.uniform(0.1, 0.9)) * d0) if a == la else float(r.uniform(0.2, 0.8)) * sh[a] * d0
+                     for a in range(3))
+        out.append({"op": "fteik3d", "slow": 1.0 / v, "dz": d0, "dx": d0, "dy": d0, "zs": src2[0], "xs": src2[1], "ys": src2[2],
+                    "nsweep": 3, "grad": 1, "meta": {"shape": sh, "d": d, "medium": kind, "src": src2, "cls": "interior",
+                                                     "equal": True, "elongated": True, "far_source": la}})
     return out
 
 
@@ -53,8 +61,12 @@ def ray_requests(r, solve_tasks, sols, nray, honor):
         for kk in range(nray):
             ecls = str(r.choice(["cells", "cells", "line", "boundary", "corner", "source", "near"]))
             if m.get("elongated") and kk < 3:
-                ecls = "farcell"
-            if ecls == "farcell":
+                ecls = "farcell" if "far_source" not in m else "upperhalf"
+            if ecls == "upperhalf":
+                la = m["far_source"]
+                end = [float(r.uniform(0.45 * axes[a][-1], max(m["src"][a] - 0.3 * m["d"][a], 0.5 * axes[a][-1]))) if a == la
+                       else float(r.uniform(0.15, 0.85)) * float(axes[a][-1]) for a in range(nd)]
+            elif ecls == "farcell":
                 end = [float(axes[a][-1]) - float(r.uniform(0.05, 0.6)) * m["d"][a] for a in range(nd)]
             elif ecls == "cells":
                 end = [coord(r, axes[a], "cell") for a in range(nd)]
